@@ -81,13 +81,14 @@ type Diff struct {
 }
 
 type RenderObs struct {
-	Renderings []Rendering `json:"renderings"`
-	Distinct   int         `json:"distinct"`
-	Diff       *Diff       `json:"diff,omitempty"`
-	MaxMap     int         `json:"max_map"` // largest unordered collection the fixture routes through
-	Bytes      int         `json:"bytes"`
-	Error      string      `json:"error,omitempty"`
-	Panic      string      `json:"panic,omitempty"`
+	Renderings []Rendering       `json:"renderings"`
+	Distinct   int               `json:"distinct"`
+	Diff       *Diff             `json:"diff,omitempty"`
+	MaxMap     int               `json:"max_map"` // largest unordered collection the fixture routes through
+	Bytes      int               `json:"bytes"`
+	First      map[string]string `json:"first,omitempty"` // the files of the first rendering (compared across processes)
+	Error      string            `json:"error,omitempty"`
+	Panic      string            `json:"panic,omitempty"`
 }
 
 type UnitObs struct {
@@ -648,8 +649,10 @@ func runRender(c *Case) (obs RenderObs) {
 		obs.Renderings = append(obs.Renderings, rd)
 		if round == 0 {
 			first = mgr.files
-			for _, b := range first {
+			obs.First = map[string]string{}
+			for n, b := range first {
 				obs.Bytes += len(b)
+				obs.First[n] = string(b)
 			}
 		} else if obs.Diff == nil {
 			for _, n := range names {
@@ -805,7 +808,9 @@ func runUnit(c *Case) (obs UnitObs) {
 		}
 		one := proj()
 		sorted := append([]string(nil), one...)
-		sort.Slice(sorted, func(i, j int) bool { return strings.SplitN(sorted[i], " ", 2)[1] < strings.SplitN(sorted[j], " ", 2)[1] })
+		sort.Slice(sorted, func(i, j int) bool {
+			return strings.SplitN(sorted[i], " ", 2)[1] < strings.SplitN(sorted[j], " ", 2)[1]
+		})
 		for _, h := range sorted {
 			obs.Bindings = append(obs.Bindings, [2]string{strings.SplitN(h, " ", 2)[1], h})
 			obs.Expect = append(obs.Expect, h)
@@ -845,20 +850,20 @@ func genCases(a vh.Args) []Case {
 		cs = append(cs, Case{ID: id, Fam: fam, Kind: kind, Plus: plus, Seed: rng.Fork(uint64(id)).U64(), P: p, Rounds: rnds})
 	}
 	// the fixed corner cases the property text names
-	add("render", "vs", true, map[string]int{"ups": 2, "keys": 5, "akp": 1}, rounds)                                       // Secret data with several keys
-	add("render", "vs", false, map[string]int{"ups": 2, "keys": 12, "akp": 1}, rounds)                                     // more than one bucket
-	add("render", "vs", true, map[string]int{"ups": 4, "keys": 1, "akp": 5}, rounds)                                       // several API-key policies in different scopes
-	add("render", "vs", true, map[string]int{"ups": 3, "keys": 1, "akp": 2, "vsr": 3}, rounds)                             // ... incl. VirtualServerRoute subroutes
-	add("render", "vs", true, map[string]int{"ups": 2, "claims": 4, "tiers": 2}, rounds)                                   // tiered rate-limit groups, several claims
-	add("render", "vs", true, map[string]int{"ups": 3, "claims": 3, "tiers": 3, "rlroute": 1}, rounds)                     // ... in two scopes
-	add("render", "vs", true, map[string]int{"ups": 5, "eps": 3, "hdr": 4, "mix": 1}, rounds)                              // header lists, upstreams, endpoints, splits, matches
-	add("render", "vs", false, map[string]int{"ups": 5, "eps": 3, "hdr": 4, "mix": 1}, rounds)                             //
-	add("render", "ingress", false, map[string]int{"svcs": 5, "eps": 2, "ann": 12, "svcann": 1}, rounds)                   // Ingress with several services/annotations
-	add("render", "ingress", true, map[string]int{"svcs": 4, "eps": 2, "ann": 12, "svcann": 1, "hc": 1}, rounds)           // health checks map
-	add("render", "mergeable", false, map[string]int{"svcs": 3, "eps": 1, "ann": 10, "minions": 3, "deny": 1}, rounds)     // master/minion annotation filters
+	add("render", "vs", true, map[string]int{"ups": 2, "keys": 5, "akp": 1}, rounds)                                           // Secret data with several keys
+	add("render", "vs", false, map[string]int{"ups": 2, "keys": 12, "akp": 1}, rounds)                                         // more than one bucket
+	add("render", "vs", true, map[string]int{"ups": 4, "keys": 1, "akp": 5}, rounds)                                           // several API-key policies in different scopes
+	add("render", "vs", true, map[string]int{"ups": 3, "keys": 1, "akp": 2, "vsr": 3}, rounds)                                 // ... incl. VirtualServerRoute subroutes
+	add("render", "vs", true, map[string]int{"ups": 2, "claims": 4, "tiers": 2}, rounds)                                       // tiered rate-limit groups, several claims
+	add("render", "vs", true, map[string]int{"ups": 3, "claims": 3, "tiers": 3, "rlroute": 1}, rounds)                         // ... in two scopes
+	add("render", "vs", true, map[string]int{"ups": 5, "eps": 3, "hdr": 4, "mix": 1}, rounds)                                  // header lists, upstreams, endpoints, splits, matches
+	add("render", "vs", false, map[string]int{"ups": 5, "eps": 3, "hdr": 4, "mix": 1}, rounds)                                 //
+	add("render", "ingress", false, map[string]int{"svcs": 5, "eps": 2, "ann": 12, "svcann": 1}, rounds)                       // Ingress with several services/annotations
+	add("render", "ingress", true, map[string]int{"svcs": 4, "eps": 2, "ann": 12, "svcann": 1, "hc": 1}, rounds)               // health checks map
+	add("render", "mergeable", false, map[string]int{"svcs": 3, "eps": 1, "ann": 10, "minions": 3, "deny": 1}, rounds)         // master/minion annotation filters
 	add("render", "mergeable", true, map[string]int{"svcs": 3, "eps": 1, "ann": 10, "minions": 3, "deny": 1, "hc": 1}, rounds) //
-	add("render", "ts", false, map[string]int{"n": 1, "ups": 5, "eps": 3}, rounds)                                         // TS with several upstreams
-	add("render", "ts", true, map[string]int{"n": 5, "ups": 2, "eps": 1, "pt": 1}, rounds)                                 // TLS passthrough host map with 5 entries
+	add("render", "ts", false, map[string]int{"n": 1, "ups": 5, "eps": 3}, rounds)                                             // TS with several upstreams
+	add("render", "ts", true, map[string]int{"n": 5, "ups": 2, "eps": 1, "pt": 1}, rounds)                                     // TLS passthrough host map with 5 entries
 	// generated variations
 	nGen := a.N
 	for i := 0; i < nGen; i++ {
